@@ -133,6 +133,26 @@ fn get_field_at_position_from_source(
     }
 }
 
+/// Whether `type_id` has a variant that cannot have fields at all (an integer, a binary, a ref,
+/// a function, a process, a resource). Reading a field from a value of such a variant fails at
+/// run time, so "ALL variants must have the field" has to count them too.
+fn has_variant_without_fields(program: &Program, type_id: usize) -> bool {
+    match program.lookup_type(type_id) {
+        Some(Type::Union(type_ids)) => type_ids
+            .iter()
+            .any(|&tid| has_variant_without_fields(program, tid)),
+        Some(
+            Type::Integer
+            | Type::Binary
+            | Type::Reference
+            | Type::Callable { .. }
+            | Type::Process { .. }
+            | Type::Resource(_),
+        ) => true,
+        _ => false,
+    }
+}
+
 /// Get field info by name from a type (supports both tuples and partials)
 /// Returns (index, field_type_ids) where index is the field position and
 /// field_type_ids are the possible types from all sources
@@ -145,7 +165,7 @@ pub fn get_field_by_name(
 ) -> Result<(usize, Vec<usize>), Error> {
     let sources = extract_field_sources(program, type_id);
 
-    if sources.is_empty() {
+    if sources.is_empty() || has_variant_without_fields(program, type_id) {
         return Err(Error::MemberAccessOnNonTuple {
             target: target_name.to_string(),
         });
@@ -198,7 +218,7 @@ pub fn get_field_at_index(
 ) -> Result<Vec<usize>, Error> {
     let sources = extract_field_sources(program, type_id);
 
-    if sources.is_empty() {
+    if sources.is_empty() || has_variant_without_fields(program, type_id) {
         return Err(Error::MemberAccessOnNonTuple {
             target: target_name.to_string(),
         });
